@@ -1,0 +1,28 @@
+//go:build verif
+
+package rueidisprob
+
+// Verification hooks (build tag verif only): read-only access to the unexported
+// sizing/index helpers and to the parameters a constructed filter ended up with.
+
+func VerifIndex(h1, h2 uint64, i uint, m uint64) uint64 { return index(h1, h2, i, m) }
+
+func VerifHash(b []byte) (uint64, uint64) { return hash(b) }
+
+func VerifBits(n uint, r float64) uint { return numberOfBloomFilterBits(n, r) }
+
+func VerifHashFunctions(s, n uint) uint { return numberOfBloomFilterHashFunctions(s, n) }
+
+// VerifParams returns (number of bits, number of hash functions) of a filter
+// built by NewBloomFilter, NewCountingBloomFilter or NewSlidingBloomFilter.
+func VerifParams(f any) (size, k uint, ok bool) {
+	switch v := f.(type) {
+	case *bloomFilter:
+		return v.size, v.hashIterations, true
+	case *countingBloomFilter:
+		return v.size, v.hashIterations, true
+	case *slidingBloomFilter:
+		return v.size, v.hashIterations, true
+	}
+	return 0, 0, false
+}
